@@ -117,6 +117,8 @@ type C05Dec struct {
 	Bytes []byte `json:"bytes"`
 	// EOFData: the source returns its last byte together with io.EOF (allowed by io.Reader)
 	EOFData bool `json:"eof_with_data,omitempty"`
+	// Idle: every Idle-th Read of the plain reader returns (0, nil)
+	Idle int `json:"idle,omitempty"`
 }
 
 func c05CheckDecode(c C05Dec) *pbt.Violation {
@@ -132,6 +134,7 @@ func c05CheckDecode(c C05Dec) *pbt.Violation {
 	var r io.Reader = iox.ByteSrc{Src: src}
 	if c.Plain {
 		r = iox.Plain{R: src}
+		src.Idle = c.Idle
 	}
 	var val uint64
 	var n int64
@@ -354,7 +357,7 @@ var c05Dec = pbt.Register(pbt.Prop[C05Dec]{
 			b = append(b, rapid.Byte().Draw(t, "last")&0x7F)
 			b = append(b, rapid.SliceOfN(rapid.Byte(), 0, 6).Draw(t, "tail")...)
 		}
-		return C05Dec{Long: rapid.Bool().Draw(t, "long"), Plain: rapid.Bool().Draw(t, "plain"), Bytes: b, EOFData: rapid.Bool().Draw(t, "eofdata")}
+		return C05Dec{Long: rapid.Bool().Draw(t, "long"), Plain: rapid.Bool().Draw(t, "plain"), Bytes: b, EOFData: rapid.Bool().Draw(t, "eofdata"), Idle: rapid.SampledFrom([]int{0, 0, 2, 3, 5}).Draw(t, "idle")}
 	},
 	Check: c05CheckDecode,
 	Classify: func(c C05Dec) (bool, []string, []byte) {
